@@ -31,6 +31,9 @@ def load():
       m.RSA = types.SimpleNamespace()
       sys.modules['M2Crypto'] = m
     from openhtf.plugs.usb import adb_message, adb_protocol, fastboot_protocol, usb_exceptions  # pylint: disable=g-import-not-at-top
+    # the rest of the package, as every user of openhtf.plugs.usb gets it (adb_device pulls in the filesync and shell
+    # services, whose class bodies build their own command tables)
+    from openhtf.plugs.usb import adb_device, fastboot_device, filesync_service, shell_service  # pylint: disable=g-import-not-at-top,unused-import
     _MODS.update(adb_message=adb_message, adb_protocol=adb_protocol, fastboot_protocol=fastboot_protocol,
                  usb_exceptions=usb_exceptions)
   return types.SimpleNamespace(**_MODS)
